@@ -109,6 +109,8 @@ def run_bounded(b, repo, tier, seed):
     except ValueError:
         return {'name': b.name, 'error': 'no JSON (exit %d): %s' % (p.returncode, (p.stderr or p.stdout)[-600:]),
                 'wall_s': time.time() - t0}
+    if 'failures' not in d:      # adapters written for replay report a single failing input
+        d['failures'] = [d['failing_input']] if d.get('failing_input') else []
     d['name'] = b.name
     d['bound'] = b.bound
     d['clause'] = b.clause
@@ -126,12 +128,24 @@ def run(prop, tier='quick', seed=0, repo='/repo', update_lock=False, verbose=Fal
     os.makedirs(ev_dir, exist_ok=True)
     os.makedirs(rp_dir, exist_ok=True)
     eng = Engine(repo)
-    if prop.setup is not None:
-        prop.setup(eng)
+    pristine = (dict(eng.builtins), {k: list(v) for k, v in eng.builtin_writes.items()}, set(eng.inline_ok))
+    last_setup = None
     undecided = []
     crashed = []
     fn_infos = []
     for q in prop.functions:
+        # an entry may be (qualname, setup): functions of another component keep the engine set-up (builtin models) of their own contracts
+        q, fsetup = q if isinstance(q, tuple) else (q, prop.setup)
+        if fsetup is not last_setup:
+            eng.builtins.clear()
+            eng.builtins.update(pristine[0])
+            eng.builtin_writes.clear()
+            eng.builtin_writes.update({k: list(v) for k, v in pristine[1].items()})
+            eng.inline_ok.clear()
+            eng.inline_ok.update(pristine[2])
+            if fsetup is not None:
+                fsetup(eng)
+            last_setup = fsetup
         try:
             fn_infos.append(eng.verify(q))
         except Unsupported as ex:
@@ -149,6 +163,20 @@ def run(prop, tier='quick', seed=0, repo='/repo', update_lock=False, verbose=Fal
         tasks.append((vc.name, txt, 'both'))
     t_gen = time.time() - t0
     results = solve.solve_all(tasks) if tasks else []
+    # second chance (full budgets, machine otherwise idle) for whatever the first pass left open: a proof that only ran out of
+    # time must not be reported as a failing obligation
+    known_obls = set()
+    for k in load_known():
+        if k.get('property') == pid and k.get('status') == 'known':
+            known_obls.update(_known_obligations(k))
+    open_idx = [i for i, (n_, r, _i) in enumerate(results) if r != 'unsat' and base_name(n_) not in known_obls]
+    n_retried = len(open_idx)
+    if open_idx and len(open_idx) <= 48:
+        again = solve.solve_all([(tasks[i][0], tasks[i][1], 'retry') for i in open_idx])
+        for i, (nm, r, info) in zip(open_idx, again):
+            if r == 'unsat':
+                info['time'] = info.get('time', 0) + results[i][2].get('time', 0)
+                results[i] = (nm, r, info)
     t_solve = time.time() - t0 - t_gen
     # ---- vacuity probes: every function has a reachable normal exit; every lemma's hypotheses are satisfiable
     vac_tasks = []
@@ -230,14 +258,24 @@ def run(prop, tier='quick', seed=0, repo='/repo', update_lock=False, verbose=Fal
                 rec['replay_error'] = traceback.format_exc()[-800:]
                 witness = None
         rec['witness'] = witness
+        # a witness that belongs to a listed finding (its witness class) testifies only for that finding's obligations
+        for k in known:
+            if witness is not None and k.get('witness_class') and _in_class(k['witness_class'], witness) \
+                    and bn not in _known_obligations(k):
+                witness = None
+                rec['witness'] = None
+                rec['witness_note'] = 'the replay only reproduced listed finding %s, which is not about this obligation' % k.get('id')
         # known finding?
         hit = None
         for k in known:
-            if k.get('obligation') and k['obligation'] != bn:
+            obls = _known_obligations(k)
+            if obls and bn not in obls:
                 continue
             if k.get('site') and k['site'] != rec.get('site'):
                 continue
-            if k.get('witness_class') and not _in_class(k['witness_class'], witness):
+            if k.get('witness_class') and rec.get('backend') == 'bounded' and not _in_class(k['witness_class'], witness):
+                continue
+            if k.get('witness_class') and witness is not None and not _in_class(k['witness_class'], witness):
                 continue
             hit = k
             break
@@ -350,6 +388,13 @@ def run(prop, tier='quick', seed=0, repo='/repo', update_lock=False, verbose=Fal
         for f in failed:
             print('  undischarged:', f['name'], f['result'], json.dumps(f.get('detail'), default=str)[:500])
     return exit_code
+
+
+def _known_obligations(k):
+    out = list(k.get('obligations', []))
+    if k.get('obligation'):
+        out.append(k['obligation'])
+    return out
 
 
 def _in_class(cls, witness):
